@@ -11,6 +11,7 @@
 -/
 import Pfb.DriverUtil
 import Pfb.Hooks.Model
+import Pfb.Hooks.PreInit
 namespace Pfb.Hooks.Drv
 open Lean Pfb.Drv Pfb.Hooks
 
@@ -109,6 +110,33 @@ def traceJ (cfg : Cfg) : St → Ref → List Op → List Json
     let r' := refStep cfg r o
     viewJ st' inv r' :: traceJ cfg st' r' os
 
+/-- ops of the application-level model (enable-before-initialize path):
+    ["preEnable",even] | ["preDisable"] | ["initialize",fail|null] | any op of `opOf` (after initialisation) -/
+def aopOf (j : Json) : Except String AOp := do
+  let a ← j.getArr?
+  let nm ← (a[0]!).getStr?
+  match nm with
+  | "preEnable" => pure (.preEnable (← (a[1]!).getBool?))
+  | "preDisable" => pure .disable
+  | "initialize" => pure (.init (← optNat (a[1]!)))
+  | _ => pure (.sh (← opOf j))
+
+def viewAJ (cfg : Cfg) (a0 a : App) (o : AOp) : Json :=
+  let inv := match o with
+    | .sh (.invoke h oc) => some (invoke cfg a0.st h oc)
+    | _ => none
+  (viewJ a.st inv (abs a.st)).mergeObj (Json.mkObj [
+    ("ndis", natJ a.ndis),
+    ("inited", Json.bool a.inited),
+    ("ajp", Json.arr #[valJ a.initShell, valJ a.initSub]),
+    ("pending", Json.bool (absA a).pending)])
+
+def traceAJ (cfg : Cfg) : App → List AOp → List Json
+  | _, [] => []
+  | a, o :: os =>
+    let a' := stepA cfg a o
+    viewAJ cfg a a' o :: traceAJ cfg a' os
+
 def handle (j : Json) : Except String Json := do
   let op ← jstr j "op"
   match op with
@@ -116,6 +144,10 @@ def handle (j : Json) : Except String Json := do
     let cfg ← cfgOf (← jobj j "cfg")
     let ops ← (← jarr j "ops").toList.mapM opOf
     pure (Json.mkObj [("steps", Json.arr (traceJ cfg St.init (abs St.init) ops).toArray)])
+  | "traceApp" =>
+    let cfg ← cfgOf (← jobj j "cfg")
+    let ops ← (← jarr j "ops").toList.mapM aopOf
+    pure (Json.mkObj [("steps", Json.arr (traceAJ cfg App.init ops).toArray)])
   | "prot" =>
     let cfg ← cfgOf (← jobj j "cfg")
     let h ← hookOf (← jstr j "hook")
